@@ -54,6 +54,10 @@ CreateVerdict(e) ==
   ELSE IF Get("sync", p) # 71 THEN "create-sync"
   ELSE IF Get("pid", p) # e.pid THEN "create-pid"
   ELSE IF e.kind # "Create" /\ Get("cc", p) # e.cc THEN "create-cc"
+  ELSE IF e.kind = "Create" /\ HasPayload(p) # ((e.opts % 2) = 1) THEN "create-payload-flag"
+  ELSE IF e.kind = "Create" /\ (Get("pusi", p) = 1) # (((e.opts \div 2) % 2) = 1) THEN "create-pusi"
+  ELSE IF e.kind = "Create" /\ HasAF(p) # (((e.opts \div 4) % 2) = 1) THEN "create-adaptation-field-flag"
+  ELSE IF e.kind = "Create" /\ (Get("tei", p) # 0 \/ Get("tp", p) # 0 \/ Get("tsc", p) # 0) THEN "create-unrequested-flag"
   ELSE IF e.kind = "CreateTestPacket" /\ (Get("pusi", p) = 1) # e.pusi THEN "create-pusi"
   ELSE IF e.kind = "CreateTestPacket" /\ HasPayload(p) # e.haspay THEN "create-payload-flag"
   ELSE IF e.kind \in {"CreateDCPacket", "CreatePacketWithPayload"} /\ ~HasPayload(p) THEN "create-payload-flag"
